@@ -831,6 +831,11 @@ class RecipeGen:
             return ["maybe_raise", fault["on"]]
         if fault["kind"] == "badtype":
             return ["pop", ["badtype"]]
+        if fault["kind"] == "stray":
+            # Break()/Continue() outside any loop: rejected by the compiler in a fresh process
+            return [fault["which"]]
+        if fault["kind"] == "badabi":
+            return ["pop", ["badabi", fault["which"]]]
         if fault["kind"] == "needv":
             return ["pop", ["needv", fault["v"]]]
         if fault["kind"] == "nonexpr":
@@ -1093,6 +1098,9 @@ def _gen_features(r: random.Random) -> dict:
 # other 70 % stay generic.  A profile only changes probabilities - every ingredient also occurs
 # in generic runs.
 PROFILES = ["router-growth", "low-version", "opt-slots", "identity", "decl-churn", "helper-interleave", "abi-cycles", "templates-consts"]
+# ABI constructions rejected while building; "bigtuple" is the one that fails AFTER the encoder allocated
+# its helper storage (late failure inside a helper), hence its weight
+BADABI = ["bigtuple", "bigtuple", "bigtuple", "uintover", "arrlen", "arity", "elemtype", "dynelem", "addr", "boolarr", "idx", "tupidx"]
 KNOBS: dict = {}
 
 
@@ -1231,14 +1239,18 @@ def gen_plan(seed: int, cfg: dict) -> dict:
                     fault_sub = {"kind": "raise"}
             elif "native" in enabled and x < (0.7 if is_noise else 0.3):
                 y = r.random()
-                if y < 0.25:
+                if y < 0.17:
                     fault_sub = {"kind": "badtype"}
-                elif y < 0.4:
+                elif y < 0.25:
+                    fault_sub = {"kind": "badabi", "which": r.choice(BADABI)}
+                elif y < 0.33:
                     fault_sub = {"kind": "nonexpr"}
+                elif y < 0.4:
+                    fault_sub = {"kind": "stray", "which": r.choice(["break", "continue"])}
                 elif y < 0.75:
                     fault_sub = {"kind": "needv", "v": r.choice([5, 6, 7, 7, 8, 10])}
                 elif not want_router:
-                    prog_fault = r.choice([["slotdup", r.choice([5, 77])], ["rbw"], ["manyabi", r.choice([130, 260])], ["pop", ["badtype"]], ["pragma", "<0.1.0", ["pop", ["int", 1]]]])
+                    prog_fault = r.choice([["slotdup", r.choice([5, 77])], ["rbw"], ["manyabi", r.choice([130, 260])], ["pop", ["badtype"]], ["pop", ["badabi", r.choice(BADABI)]], [r.choice(["break", "continue"])], ["pragma", "<0.1.0", ["pop", ["int", 1]]]])
                 else:
                     prog_fault = ["dup_method"]
             spec = make_program(not is_noise, want_router, fault_sub, prog_fault)
